@@ -41,7 +41,7 @@ def item_roots(indesc, acc):
     for it in indesc:
         if it[0] == "V":
             acc.add(it[1])
-        elif it[0] == "O":
+        elif it[0] in ("O", "OS"):
             item_roots(it[1][1], acc)
     return acc
 
@@ -67,6 +67,8 @@ def canon_exec(plan, ed, ren=None):
             if ctx.id not in ren:
                 ren[ctx.id] = len(ren)
             items.append(("V", ren[ctx.id], ctx.path, ctx.raw))
+        elif it[0] == "OS":
+            items.append(("OS", canon_exec(plan, it[1], ren), it[2]))
         else:
             items.append(("O", canon_exec(plan, it[1], ren), it[2], it[3]))
     return (pp["text"], pp.get("mode", 0), tuple(items), voc_of(ed))
@@ -131,7 +133,7 @@ class BaselineBuilder:
         idx = self.add("MKIN", i, *items)
         return i, idx
 
-    def build_exec_keep(self, ed, k):
+    def build_exec_keep(self, ed, k, blind=False):
         q = self.nq
         self.nq += 1
         self.parse(q, ed)
@@ -143,7 +145,10 @@ class BaselineBuilder:
             self.add("PULL", r)
         o = self.no
         self.no += 1
-        self.add("PULL", r, o)
+        if blind:
+            self.add("PULL", r, o, "blind")
+        else:
+            self.add("PULL", r, o)
         return o
 
     def build(self, ed):
@@ -152,10 +157,16 @@ class BaselineBuilder:
         q = self.nq
         self.nq += 1
         self.i_parse = self.parse(q, ed)
-        i, self.i_mkin = self.build_input(ed[1])
         r = self.nr
         self.nr += 1
-        self.i_exec = self.add("EXEC", r, q, i)
+        if len(ed[1]) == 1 and ed[1][0][0] == "OS":
+            # the whole output stack of another execution, handed on untouched
+            osrc = self.build_exec_keep(ed[1][0][1], ed[1][0][2], blind=True)
+            self.i_mkin = None
+            self.i_exec = self.add("EXECO", r, q, osrc)
+        else:
+            i, self.i_mkin = self.build_input(ed[1])
+            self.i_exec = self.add("EXEC", r, q, i)
         self.i_pull0 = len(self.bp["steps"])
         for _ in range(self.cap + 1):
             self.add("PULL", r)
@@ -313,7 +324,7 @@ class Baselines:
                 b.ok = True
                 ev = resp.events
                 b.parse = parse_sig(ev[bb.i_parse])
-                b.mkin = (ev[bb.i_mkin].outcome, ev[bb.i_mkin].get("r", "-"))
+                b.mkin = (ev[bb.i_mkin].outcome, ev[bb.i_mkin].get("r", "-")) if bb.i_mkin is not None else None
                 b.exec = (ev[bb.i_exec].outcome, ev[bb.i_exec].get("msg", "-"))
                 for e in ev[bb.i_pull0:]:
                     if e.outcome == "skip":
@@ -385,6 +396,10 @@ def verify_history(plan, resp, baselines, check_seq=True):
         if ev.op == "VOC":
             VOCS[int(a[0])] = tuple(a[1:])
             st.probe("vocabulary_built_by_plan")
+        elif ev.op == "VOCADD":
+            if ev.outcome == "ok":
+                VOCS[int(a[0])] = VOCS[int(a[0])] + (a[1],)
+                st.probe("vocabulary_extended_after_use")
         elif ev.op == "PARSE":
             q, p = int(a[0]), int(a[1])
             pvoc = VOCS.get(int(a[2])) if len(a) >= 3 else None
@@ -457,9 +472,15 @@ def verify_history(plan, resp, baselines, check_seq=True):
         elif ev.op == "DROPI":
             I.pop(int(a[0]), None)
 
-        elif ev.op == "EXEC":
+        elif ev.op in ("EXEC", "EXECO"):
             r, q, i = int(a[0]), int(a[1]), int(a[2])
-            ed = (Q[q], I[i]["desc"]) if QVOC.get(q) is None else (Q[q], I[i]["desc"], QVOC[q])
+            if ev.op == "EXECO":
+                src = O[i]
+                idesc = (("OS", src["exec"], src["k"]),)
+                st.probe("output_stack_handed_on_as_input")
+            else:
+                idesc = I[i]["desc"]
+            ed = (Q[q], idesc) if QVOC.get(q) is None else (Q[q], idesc, QVOC[q])
             roots = item_roots(ed[1], set())
             if fired:
                 for c in roots:
@@ -479,7 +500,7 @@ def verify_history(plan, resp, baselines, check_seq=True):
                         # cannot happen: the history compiled it
                         return bad("parse-stable", ev, "fresh process rejects: %s"
                                    % show_sig(b.parse)), st
-                    if b.mkin != ("ok", I[i]["render"]):
+                    if ev.op == "EXEC" and b.mkin != ("ok", I[i]["render"]):
                         return bad("seq", ev, "input stack differs from the freshly built one: "
                                    "fresh %s ; here %s" % (show_sig(b.mkin), show_sig(("ok", I[i]["render"])))), st
                     got = (ev.outcome, ev.get("msg", "-"))
@@ -514,9 +535,12 @@ def verify_history(plan, resp, baselines, check_seq=True):
                 b = baselines.execution(res["exec"])
                 if b.ok:
                     got = pull_sig(ev)
+                    blind = len(a) >= 3 and a[2] == "blind" and ev.outcome == "stack"
                     if k >= len(b.pulls):
                         return bad("seq", ev, "pull %d: fresh run had only %d pulls (%s)"
                                    % (k, len(b.pulls), show_sig(b.pulls[-1]) if b.pulls else "none")), st
+                    if blind and k < len(b.pulls) and b.pulls[k][0] == "stack":
+                        got = b.pulls[k]        # kept unlooked at: only that it is a stack is known
                     if got != b.pulls[k]:
                         return bad("seq", ev, "pull %d: fresh %s ; here %s"
                                    % (k, show_sig(b.pulls[k]), show_sig(got))), st
@@ -548,6 +572,8 @@ def verify_history(plan, resp, baselines, check_seq=True):
 
         elif ev.op == "RENDER":
             o = O.get(int(a[0]))
+            if o is not None and o["render"] == "-":
+                o["render"] = ev.get("r", "-")      # first look at a stack that was kept unlooked at
             if o is not None and ev.get("r", "-") != o["render"]:
                 return bad("input-intact", ev, "kept stack changed: was %s now %s"
                            % (show_sig((o["render"],)), show_sig((ev.get("r", "-"),)))), st
